@@ -305,8 +305,20 @@ class Vectorize(Contract):
         else:
             S.call_args = ([cls, h, bounds], {})
             S.extra["vec"] = None
-        S.a = {"cls": cls, "host": h}
+        S.a = {"cls": cls, "host": h, "address_space_bounds": bounds}
         return S
+
+    def requires(self, I, S):
+        # the bounds argument is only read when the class is not initialised yet (it then fixes the layout of every
+        # vector built afterwards): there it has to be the scenario's address-space bounds
+        if hv_state(I).get("address_space_bounds") is not None:
+            return []
+        b = S.a.get("address_space_bounds")
+        sig = S.sig
+        ok = isinstance(b, tuple) and len(b) == 2 and all(
+            isinstance(x, (SymV, int)) and not isinstance(x, bool) for x in b)
+        return [("C09.bounds-argument-is-scenario-bounds",
+                 z3.And(ival(b[0]) == sig.B0, ival(b[1]) == sig.B1) if ok else z3.BoolVal(False))]
 
     def bind(self, I, fi, args, kwargs):
         S = super().bind(I, fi, args, kwargs)
